@@ -114,6 +114,10 @@ BLOCK_ROUTES = ("func-pos", "func-kw", "stream-kw", "stream-pos", "func-list")
 def run_blocks(al, n, size, hop, padkind, route, shift=0):
     """Observe the real code: (snapshots coded as index tuples, items consumed at each yield, read log, err)."""
     items = make_items(n, shift)
+    if padkind != "none" and n and shift % 2:
+        # "heterogeneous items": None is an item like any other (in every second run one item is None - the first
+        # item a hop > size jumps over where there is one, any position otherwise)
+        items[size if (hop and hop > size and n > size) else (shift // 2) % n] = None
     pad = make_pad(padkind)
     code = coder(items, pad, padkind)
     snaps, rd = [], []
